@@ -9,6 +9,7 @@ import (
 	"strconv"
 	"strings"
 	"testing"
+	"time"
 
 	"verif/simdb"
 	"verif/simkit"
@@ -96,6 +97,20 @@ func (r *atRun) materialiseForeign(jstart int, acts []foreignAct, g *simkit.Gen)
 							w.Sim.Probe("c09-foreign-write-float32-twin")
 							return VF(g2)
 						}
+					}
+				}
+			}
+			// a near miss for temporal columns with fractional seconds: the same
+			// second, another fraction (two writers stamping NOW(3) one after the other)
+			if (c.DataType == "datetime" || c.DataType == "timestamp") && c.Scale >= 3 {
+				if tv, ok := row[i].(time.Time); ok {
+					tw := tv.Add(7 * time.Millisecond)
+					if tw.Unix() != tv.Unix() {
+						tw = tv.Add(-7 * time.Millisecond)
+					}
+					if tw.Unix() == tv.Unix() {
+						w.Sim.Probe("c09-foreign-write-same-second-twin")
+						return VS(tw.UTC().Format("2006-01-02 15:04:05.000"))
 					}
 				}
 			}
